@@ -81,8 +81,8 @@ type tokGen struct {
 
 func (t *tokGen) tok() string {
 	t.next++
-	if t.next >= 1001 && t.next <= 1004 { // reserved for the typed nils
-		t.next = 1005
+	if t.next >= 1001 && t.next <= 1006 { // reserved for the typed nils and the error-typed payloads
+		t.next = 1007
 	}
 	return "t" + strconv.Itoa(t.next)
 }
@@ -94,7 +94,7 @@ func (t *tokGen) val() string {
 		return "t0"
 	}
 	if t.r.chance(6) { // a typed nil (nil pointer / nil map / nil chan): must travel as it is, not as untyped nil
-		return "t" + strconv.Itoa(1001+t.r.intn(4))
+		return "t" + strconv.Itoa(1001+t.r.intn(6)) // … or a value whose type implements error (1005, 1006)
 	}
 	if t.r.chance(7) { // a flyt.Result used as an ordinary payload value (sometimes one holding another Result)
 		if t.r.chance(25) {
